@@ -39,7 +39,8 @@ ANCHORS = ['recursiveloader:ManifestRecursiveLoader.save_manifests',
            'compression:open_potentially_compressed_path',
            'compression:get_compressed_suffix_from_filename']
 REQUIRED = ['recursiveloader:ManifestRecursiveLoader.save_manifests',
-            'meta_assignments_compared', 'wm_saves_checked', 'wm_rewritten_manifests']
+            'meta_assignments_compared', 'wm_saves_checked', 'wm_rewritten_manifests',
+            'wm_saves_with_constructor_values']
 ASSUMPTIONS = ['uncompressed size = number of bytes obtained by decompressing what is on '
                'disk after the save',
                'directories with several Manifest-named files are not generated here']
@@ -199,6 +200,7 @@ def judge_wm(ctx, root, case):
         ctx.discarded('tree not consistent before the save')
         return
     shared = None
+    ctor_w = None
     for step, st in enumerate(case['saves']):
         sizes0 = sizes_on_disk(root)
         mans0 = set(sizes0)
@@ -208,6 +210,18 @@ def judge_wm(ctx, root, case):
             w = max(0, vals[w[1] % len(vals)] + w[2]) if vals else 0
         if w == 'max+1':
             w = max([v for v in sizes0.values() if v] + [0]) + 1
+        fmt_eff = st['fmt']
+        ctor = case.get('ctor')
+        if ctor and ctor_w is None:
+            cw = ctor['w']
+            if isinstance(cw, list):
+                vals = sorted(v for v in sizes0.values() if v is not None)
+                cw = max(0, vals[cw[1] % len(vals)] + cw[2]) if vals else 0
+            ctor_w = cw
+        use_ctor = bool(ctor and st.get('use_ctor'))
+        if use_ctor:
+            # nothing passed to this call: the values given to the constructor apply
+            w, fmt_eff = ctor_w, ctor['fmt']
         case['_w'] = w
         try:
             with audit.Recording(root) as rec:
@@ -221,12 +235,20 @@ def judge_wm(ctx, root, case):
                         hashes=['SHA256'], profile=get_profile_by_name(case['profile']),
                         sort=False, compress_watermark=w, compress_format=st['fmt'])
                 else:
+                    kw = {}
+                    if ctor:
+                        kw = {'compress_watermark': ctor_w,
+                              'compress_format': ctor['fmt']}
                     m = ManifestRecursiveLoader(os.path.join(root, 'Manifest'),
-                                                verify_openpgp=False, hashes=['SHA256'])
+                                                verify_openpgp=False, hashes=['SHA256'],
+                                                **kw)
                 shared = m
                 if st.get('dirty'):
                     m.update_entries_for_directory('')
-                if case.get('profile') and not (case.get('one_loader') and step):
+                if use_ctor:
+                    m.save_manifests(force=st['force'])
+                    ctx.count('wm_saves_with_constructor_values')
+                elif case.get('profile') and not (case.get('one_loader') and step):
                     m.save_manifests(force=st['force'])
                 else:
                     m.save_manifests(force=st['force'], compress_watermark=w,
@@ -243,9 +265,9 @@ def judge_wm(ctx, root, case):
             if ev[0] == 'open-write':
                 written.add(os.path.relpath(ev[1], root))
         sizes1 = sizes_on_disk(root)
-        detail = {'step': step, 'w': w, 'fmt': st['fmt'], 'force': st['force'],
+        detail = {'step': step, 'w': w, 'fmt': fmt_eff, 'force': st['force'],
                   'before': sizes0, 'after': sizes1, 'written': sorted(written)}
-        ctx.case(sig=('wm', st['force'], st['fmt'], step), case=case, klass='wm')
+        ctx.case(sig=('wm', st['force'], fmt_eff, step), case=case, klass='wm')
         # one file per logical Manifest, parents reference existing names
         logicals = {}
         for mp in update_post.manifest_files_on_disk(root) + list(sizes1):
@@ -254,6 +276,13 @@ def judge_wm(ctx, root, case):
             if len(names) > 1:
                 ctx.violation('two-files-for-one-manifest', 'after the save both %r '
                               'exist' % (sorted(names),), case, detail)
+                return
+        before_logical = {logical(x) for x in mans0}
+        for mp in sizes1:
+            if logical(mp) not in before_logical and not case.get('profile'):
+                ctx.violation('manifest-name-changed', 'after the save the parents '
+                              'reference %r; no Manifest of that name (in any format) '
+                              'existed before: %r' % (mp, sorted(mans0)), case, detail)
                 return
         for mp, sz in sizes1.items():
             if sz is None:
@@ -288,9 +317,9 @@ def judge_wm(ctx, root, case):
                               'to %r' % (was[0], mp), case, detail)
                 return
             if compressed and (not was or not mtext.suffix_of(was[0])) and \
-                    mtext.suffix_of(mp) != st['fmt']:
+                    mtext.suffix_of(mp) != fmt_eff:
                 ctx.violation('wrong-target-format', '%r compressed as %r, requested %r'
-                              % (mp, mtext.suffix_of(mp), st['fmt']), case, detail)
+                              % (mp, mtext.suffix_of(mp), fmt_eff), case, detail)
                 return
         if 'Manifest' not in sizes1 or mtext.suffix_of(
                 [x for x in sizes1 if logical(x) == 'Manifest'][0]):
@@ -363,12 +392,21 @@ def run_unit(u, ctx):
                         st['dirty'] = False
                 case['saves'] = saves
                 case['one_loader'] = rng.random() < 0.5
+                if rng.random() < 0.35:
+                    # compression settings given to the constructor; some calls
+                    # override them, the others rely on them
+                    case['ctor'] = {'w': rng.choice([0, ['size', rng.randrange(8), 0],
+                                                     10**6]),
+                                    'fmt': rng.choice(['gz', 'bz2', 'lzma', 'xz'])}
+                    for st in saves:
+                        st['use_ctor'] = rng.random() < 0.5
                 # (the ebuild profile would want Manifests of its own in some
                 # directories; only use it where the tree has no sub-directories
                 # the profile cares about: it is used for its option handling)
                 # (a Manifest the profile newly creates in a directory that is also
                 # visible through a directory symlink would be aliased: U15)
-                case['profile'] = 'ebuild' if rng.random() < 0.3 and not any(
+                case['profile'] = 'ebuild' if rng.random() < 0.3 and not case.get(
+                    'ctor') and not any(
                     n['t'] == 'l' and n.get('kind') == 'dir'
                     for n in case['skel']['nodes']) else None
                 judge_wm(ctx, root, case)
